@@ -11,7 +11,7 @@ Definition mark k := one (Leaf (LMark k)).
 Definition probe := one (Leaf LProbe).
 Definition tt := Leaf (LStatus true).
 Definition ff := Leaf (LStatus false).
-Definition st (n : nat) : cmd := Subshell [one (Leaf (LExit (Some n)))].
+Definition st (n : nat) : cmd := Subshell [one (Leaf (LExit (Some (Z.of_nat n))))].
 
 Definition differs (fuel : nat) (p : program) : Prop :=
   obs_model (run_model fuel p) <> obs_spec (run_spec fuel p).
@@ -30,9 +30,9 @@ Definition w_cont_cond : program := [[one (Loop false [one (Leaf (LContinue 1))]
 Definition w_fn_break : program :=
   [[one (FunDef 0 (Brace [one (Leaf (LBreak 1))])); one (For false 2 [one (Leaf (LCall 0)); probe])]].
 (** true | exit 3; echo m1              (repaired) brush used to exit the parent shell *)
-Definition w_stage_leak : program := [[((false, [tt; Leaf (LExit (Some 3))]), []); mark 1]].
+Definition w_stage_leak : program := [[((false, [tt; Leaf (LExit (Some 3%Z))]), []); mark 1]].
 (** ( ! exit 3 ); echo "?=$?"           (repaired) brush used to print 0; bash: 3 *)
-Definition w_bang_exit : program := [[one (Subshell [neg (Leaf (LExit (Some 3)))]); probe]].
+Definition w_bang_exit : program := [[one (Subshell [neg (Leaf (LExit (Some 3%Z)))]); probe]].
 (** for v in 1; do while ! break; do echo m1; done; echo "?=$?"; done      brush: 1; bash: 0 *)
 Definition w_cond_status : program :=
   [[one (For false 1 [one (Loop false [neg (Leaf (LBreak 1))] [mark 1]); probe])]].
@@ -75,7 +75,7 @@ Proof. split; [split|]; vm_compute; reflexivity. Qed.
     done
     echo "?=$?"; set -e; false || echo m9; ! false; if false; then :; fi; ( exit 7 ); echo m10 *)
 Definition ex_prog : program :=
-  [[one (FunDef 0 (Brace [mark 1; one (Leaf (LReturn (Some 3))); mark 2]))];
+  [[one (FunDef 0 (Brace [mark 1; one (Leaf (LReturn (Some 3%Z))); mark 2]))];
    [one (For false 3
       [one (Loop false [one (Tick 0 2)] [mark 3; one (Leaf (LContinue 1)); mark 4]);
        one (If [one (Leaf (LCall 0))] [mark 5] [(Some [one (st 4)], [mark 6]); (None, [probe])]);
